@@ -100,6 +100,7 @@ type Engine struct {
 	trueT      term.ID
 	falseT     term.ID
 	Sentinels  []string // gv names that keep their own error class
+	focusCache map[term.ID]bool
 }
 
 type siteKey struct {
@@ -109,19 +110,38 @@ type siteKey struct {
 }
 
 func New(P *load.Program) *Engine {
-	e := &Engine{P: P, T: term.NewTable(), K: 8, MaxDepth: 14,
+	e := &Engine{P: P, T: term.NewTable(), K: 12, MaxDepth: 14,
 		sites: map[siteKey]int32{}, siteInfo: make([]siteKey, 1), memo: map[string]*result{},
 		closures: map[string]*ssa.Function{}, Warnings: map[string]int{}}
 	e.nilT = e.T.Mk("nil")
 	e.trueT = e.T.Mk("true")
 	e.falseT = e.T.Mk("false")
 	e.Seams = DefaultSeams
-	e.NoInline = func(string) bool { return false }
+	e.NoInline = DefaultNoInline
+	e.focusCache = map[term.ID]bool{}
 	e.Sentinels = []string{"ErrNoOpMsg"}
 	return e
 }
 
 func (e *Engine) warn(s string) { e.Warnings[s]++ }
+
+// DefaultNoInline lists in-scope functions treated as opaque calls because
+// their bodies only add irrelevant path splits (event emission, logging,
+// telemetry, port routing lookups).
+func DefaultNoInline(key string) bool {
+	base := key
+	if i := strings.LastIndex(key, "."); i >= 0 {
+		base = key[i+1:]
+	}
+	if strings.HasPrefix(base, "emit") || strings.HasPrefix(base, "Emit") || base == "Logger" {
+		return true
+	}
+	switch key {
+	case "core/05-port/keeper.Keeper.Route", "core/02-client/types.GetSelfHeight", "core/02-client/types.ParseChainID":
+		return true
+	}
+	return strings.Contains(key, "/telemetry.") || strings.Contains(key, "internal/telemetry")
+}
 
 func (e *Engine) site(parent int32, instr ssa.Instruction, extra int) int32 {
 	k := siteKey{parent, instr, extra}
@@ -154,7 +174,7 @@ func DefaultSeams(key string) bool {
 		"core/05-port/types.ICS4Wrapper.", "core/05-port/types.Middleware.", "core/api.PacketDataUnmarshaler",
 		"apps/callbacks/types.ContractKeeper.", "core/05-port/types.PacketDataUnmarshaler.",
 		"core/api.WriteAcknowledgementWrapper.", "core/exported.ClientMessage.", "core/exported.ClientState.",
-		"core/exported.ConsensusState.", "core/exported.Acknowledgement.", "core/exported.PacketI.", "core/exported.Height.",
+		"core/exported.ConsensusState.", "core/exported.Acknowledgement.",
 		"core/05-port/types.PacketUnmarshalerModule.", "core/exported.PacketData",
 	} {
 		if strings.HasPrefix(key, p) {
@@ -195,51 +215,67 @@ func (e *Engine) Run(fn *ssa.Function) *RunResult {
 
 // ---------------------------------------------------------------- fixpoint
 
-func coreKey(e *Engine, a *alt) string {
-	var sb strings.Builder
+func mix(x uint64) uint64 {
+	x += 0x9e3779b97f4a7c15
+	x = (x ^ (x >> 30)) * 0xbf58476d1ce4e5b9
+	x = (x ^ (x >> 27)) * 0x94d049bb133111eb
+	return x ^ (x >> 31)
+}
+
+type hash2 struct{ a, b uint64 }
+
+func (h *hash2) add(tag, k, v uint64) {
+	x := mix(tag*0x100000001b3 ^ mix(k) ^ mix(v+0x5bd1e995))
+	h.a += x
+	h.b += mix(x ^ 0xabcdef)
+}
+
+func coreHash(a *alt, h *hash2) {
 	for _, id := range a.atoms {
-		fmt.Fprintf(&sb, "%d,", id)
+		h.add(1, uint64(id), 0)
 	}
-	sb.WriteByte('|')
-	ks := make([]int, 0, len(a.cells))
-	for k := range a.cells {
-		ks = append(ks, int(k))
+	for k, c := range a.cells {
+		e := uint64(0)
+		if c.escaped {
+			e = 1
+		}
+		h.add(2, uint64(k), uint64(c.val)<<1|e)
 	}
-	sort.Ints(ks)
-	for _, k := range ks {
-		c := a.cells[int32(k)]
-		fmt.Fprintf(&sb, "%d=%d/%v,", k, c.val, c.escaped)
+	for k, v := range a.heap {
+		h.add(3, uint64(k), uint64(v))
 	}
-	sb.WriteByte('|')
-	hs := make([]int, 0, len(a.heap))
-	for k := range a.heap {
-		hs = append(hs, int(k))
+}
+
+// coreKey / altKey are order-independent 128-bit digests (plus sizes) of the
+// state; used for memoisation and duplicate detection.
+func coreKey(e *Engine, a *alt) string {
+	var h hash2
+	coreHash(a, &h)
+	return fmt.Sprintf("%x.%x.%d.%d", h.a, h.b, len(a.atoms), len(a.cells))
+}
+
+var valueIDs = map[ssa.Value]uint64{}
+
+func valueID(v ssa.Value) uint64 {
+	if id, ok := valueIDs[v]; ok {
+		return id
 	}
-	sort.Ints(hs)
-	for _, k := range hs {
-		fmt.Fprintf(&sb, "%d=%d,", k, a.heap[term.ID(k)])
-	}
-	return sb.String()
+	id := uint64(len(valueIDs) + 1)
+	valueIDs[v] = id
+	return id
 }
 
 func altKey(e *Engine, a *alt) string {
-	var sb strings.Builder
-	sb.WriteString(coreKey(e, a))
-	sb.WriteByte('|')
-	type kv struct {
-		k string
-		v term.ID
-	}
-	fs := make([]kv, 0, len(a.frame))
+	var h hash2
+	coreHash(a, &h)
 	for k, v := range a.frame {
-		fs = append(fs, kv{fmt.Sprintf("%p", k), v})
+		h.add(4, valueID(k), uint64(v))
 	}
-	sort.Slice(fs, func(i, j int) bool { return fs[i].k < fs[j].k })
-	for _, f := range fs {
-		fmt.Fprintf(&sb, "%s=%d,", f.k, f.v)
+	imp := 0
+	if a.impure {
+		imp = 1
 	}
-	fmt.Fprintf(&sb, "|%d|%v", len(a.defers), a.impure)
-	return sb.String()
+	return fmt.Sprintf("%x.%x.%d.%d.%d.%d.%d", h.a, h.b, len(a.atoms), len(a.cells), len(a.frame), len(a.defers), imp)
 }
 
 func (e *Engine) inScope(fn *ssa.Function) bool {
@@ -494,24 +530,195 @@ func (e *Engine) join(as []*alt, k int) []*alt {
 		seen[key] = true
 		out = append(out, a)
 	}
-	for len(out) > k {
-		bi, bj, best, first := 0, 1, 0, true
-		for i := 0; i < len(out); i++ {
-			for j := i + 1; j < len(out); j++ {
-				// similarity of facts, with a heavy penalty for values the two
-				// alternatives bind differently (merging would forget them)
-				s := len(out[i].atoms.Intersect(out[j].atoms))*2 - len(out[i].atoms) - len(out[j].atoms)
-				s -= 1000 * frameDisagreements(out[i], out[j])
-				if first || s > best {
-					bi, bj, best, first = i, j, s, false
+	if len(out) > k {
+		score := func(x, y *alt) int {
+			// similarity of facts, with a heavy penalty for values the two
+			// alternatives bind differently (merging would forget them)
+			s := x.atoms.IntersectLen(y.atoms)*2 - len(x.atoms) - len(y.atoms) - 1000*frameDisagreements(x, y)
+			// predicate abstraction: path classes that differ on a predicate the
+			// properties talk about are merged last
+			s -= 400 * e.focusDiff(x.atoms, y.atoms)
+			return s
+		}
+		n := len(out)
+		sc := make([][]int, n)
+		for i := range sc {
+			sc[i] = make([]int, n)
+		}
+		for i := 0; i < n; i++ {
+			for j := i + 1; j < n; j++ {
+				sc[i][j] = score(out[i], out[j])
+			}
+		}
+		alive := make([]bool, n)
+		for i := range alive {
+			alive[i] = true
+		}
+		cnt := n
+		for cnt > k {
+			bi, bj, best, first := 0, 1, 0, true
+			for i := 0; i < n; i++ {
+				if !alive[i] {
+					continue
+				}
+				for j := i + 1; j < n; j++ {
+					if alive[j] && (first || sc[i][j] > best) {
+						bi, bj, best, first = i, j, sc[i][j], false
+					}
+				}
+			}
+			out[bi] = e.merge(out[bi], out[bj])
+			alive[bj] = false
+			cnt--
+			for j := 0; j < n; j++ {
+				if !alive[j] || j == bi {
+					continue
+				}
+				if j < bi {
+					sc[j][bi] = score(out[j], out[bi])
+				} else {
+					sc[bi][j] = score(out[bi], out[j])
 				}
 			}
 		}
-		m := e.merge(out[bi], out[bj])
-		out[bi] = m
-		out = append(out[:bj], out[bj+1:]...)
+		var res []*alt
+		for i := 0; i < n; i++ {
+			if alive[i] {
+				res = append(res, out[i])
+			}
+		}
+		out = res
 	}
 	return out
+}
+
+// headKey identifies the call an atom is about: effect atoms and their
+// outcome wrappers (ok/fail/T/F/errnil/errnonnil/errvia/boolvia) for the same
+// call instruction on the same inline path share a key.
+func (e *Engine) headKey(id term.ID) (string, bool) {
+	tm := e.T.Get(id)
+	switch tm.Op {
+	case "ok", "fail", "T", "F", "errnil", "errnonnil", "errvia", "boolvia", "eq", "ne":
+		if len(tm.Args) > 0 {
+			inner := stripExtract(e.T, tm.Args[0])
+			it := e.T.Get(inner)
+			if strings.HasPrefix(it.Op, "call:") && it.Site != 0 {
+				return fmt.Sprintf("%s|%s@%d", tm.Op, it.Op, it.Site), true
+			}
+		}
+		return "", false
+	}
+	if strings.HasPrefix(tm.Op, "call:") && tm.Site != 0 {
+		return fmt.Sprintf("%s@%d", tm.Op, tm.Site), true
+	}
+	return "", false
+}
+
+// antiUnify returns the most specific term that generalises x and y:
+// differing sub-terms become the unknown top#au.
+func (e *Engine) antiUnify(x, y term.ID, depth int) term.ID {
+	if x == y {
+		return x
+	}
+	tx, ty := e.T.Get(x), e.T.Get(y)
+	if depth > 12 || tx.Op != ty.Op || tx.Site != ty.Site || len(tx.Args) != len(ty.Args) || len(tx.Args) == 0 {
+		return e.T.Mk("top#au")
+	}
+	args := make([]term.ID, len(tx.Args))
+	for i := range args {
+		args[i] = e.antiUnify(tx.Args[i], ty.Args[i], depth+1)
+	}
+	return e.T.MkSite(tx.Op, tx.Site, args...)
+}
+
+// generalise is the meet of two fact sets: the common atoms, plus, for atoms
+// about the same call instruction that differ only in some arguments, their
+// anti-unification (so "this call happened / succeeded" survives a merge of
+// path classes that passed different values).
+func (e *Engine) generalise(a, b term.Set) term.Set {
+	out := a.Intersect(b)
+	if len(out) == len(a) || len(out) == len(b) {
+		return out
+	}
+	idx := map[string][]term.ID{}
+	for _, id := range b {
+		if out.Has(id) {
+			continue
+		}
+		if k, ok := e.headKey(id); ok {
+			idx[k] = append(idx[k], id)
+		}
+	}
+	if len(idx) == 0 {
+		return out
+	}
+	for _, id := range a {
+		if out.Has(id) {
+			continue
+		}
+		k, ok := e.headKey(id)
+		if !ok {
+			continue
+		}
+		cands := idx[k]
+		if len(cands) != 1 {
+			continue
+		}
+		g := e.antiUnify(id, cands[0], 0)
+		if strings.HasPrefix(e.T.Op(g), "top#") {
+			continue
+		}
+		out = out.Add(g)
+	}
+	return out
+}
+
+// FocusWords are substrings of printed facts that mark a predicate the
+// properties distinguish path classes by (channel ordering, acknowledgement
+// outcome, no-op, state constants, ...). Effects (calls) are never focus atoms.
+var FocusWords = []string{"Ordering", "Acknowledgement.Success", "ErrNoOpMsg", "field:State(", "PacketStatus", "field:Status(", "IsAllowed", "isSuccess", "HasPrefix", "Success(", "Async"}
+
+func (e *Engine) isFocus(id term.ID) bool {
+	if v, ok := e.focusCache[id]; ok {
+		return v
+	}
+	tm := e.T.Get(id)
+	v := false
+	switch tm.Op {
+	case "eq", "ne", "T", "F", "lt", "le":
+		s := e.T.String(id)
+		for _, w := range FocusWords {
+			if strings.Contains(s, w) {
+				v = true
+				break
+			}
+		}
+	}
+	e.focusCache[id] = v
+	return v
+}
+
+// focusDiff counts focus facts present in exactly one of the two sets.
+func (e *Engine) focusDiff(a, b term.Set) int {
+	n, i, j := 0, 0, 0
+	for i < len(a) || j < len(b) {
+		switch {
+		case j >= len(b) || (i < len(a) && a[i] < b[j]):
+			if e.isFocus(a[i]) {
+				n++
+			}
+			i++
+		case i >= len(a) || a[i] > b[j]:
+			if e.isFocus(b[j]) {
+				n++
+			}
+			j++
+		default:
+			i++
+			j++
+		}
+	}
+	return n
 }
 
 func frameDisagreements(a, b *alt) int {
@@ -530,7 +737,7 @@ func frameDisagreements(a, b *alt) int {
 }
 
 func (e *Engine) merge(a, b *alt) *alt {
-	n := &alt{atoms: a.atoms.Intersect(b.atoms), impure: a.impure || b.impure}
+	n := &alt{atoms: e.generalise(a.atoms, b.atoms), impure: a.impure || b.impure}
 	n.cells = map[int32]cellVal{}
 	for k, va := range a.cells {
 		if vb, ok := b.cells[k]; ok {
